@@ -889,13 +889,33 @@ fn run_program_inner(c: &Case, sx: &mut Sx, dump: &mut Vec<Option<(usize, usize,
             // the actual value may sit anywhere within the error bound of the shadow: it has to fit the extraction budget
             let need = ((sh.mag() + 2.0 * sh.err).max(1.0).log2().ceil() as usize) + 3;
             // extraction budget: up to 110 bits in total, so that both integer widths of the decoder are exercised
-            let dlb = sh.lb.min(110usize.saturating_sub(sh.ld));
+            // the plaintext may ask for another scale than the ciphertext's (the extraction rule only involves the
+            // ciphertext's budget and the plaintext's own metadata): finer (+9), coarser (-6) or equal
+            let dd: i64 = [0i64, 9, -6, 0][(ri + c.ops.len()) % 4];
+            let pld = ((sh.ld as i64 + dd).clamp(8, 53)) as usize;
+            let dlb = sh.lb.min(110usize.saturating_sub(pld));
             if dlb < need || sh.ld > 53 {
                 continue;
             }
-            let mut pt = alloc_pt_vec_znx((n as u32).into(), (b as u32).into(), CKKSMeta { log_delta: sh.ld, log_budget: dlb });
+            // a plaintext that asks for more integer bits than the ciphertext's budget must be refused
+            if (ri + 2 * c.ops.len()) % 5 == 0 {
+                let mut too_wide = alloc_pt_vec_znx((n as u32).into(), (b as u32).into(), CKKSMeta { log_delta: pld, log_budget: sh.lb + 1 + (ri % 3) });
+                match md.ckks_decrypt(&mut too_wide, &reg.ct, &cx.sk, sx.roomy()) {
+                    Ok(()) => return fail(step, op, "success-where-an-error-is-due", format!("register {ri}: ckks_decrypt into a plaintext with log_budget {} > the ciphertext's {} (plaintext log_delta {pld}, ciphertext log_delta {}) returned Ok", sh.lb + 1 + (ri % 3), sh.lb, sh.ld)),
+                    Err(e) => {
+                        if err_kind(&e) != "PlaintextAlignmentImpossible" {
+                            return fail(step, op, "wrong-error-kind", format!("register {ri}: ckks_decrypt into a too wide plaintext: expected PlaintextAlignmentImpossible, got {} (`{e}`)", err_kind(&e)));
+                        }
+                    }
+                }
+                classes.push("decrypt_into_too_wide_plaintext_refused");
+            }
+            let mut pt = alloc_pt_vec_znx((n as u32).into(), (b as u32).into(), CKKSMeta { log_delta: pld, log_budget: dlb });
             if let Err(e) = md.ckks_decrypt(&mut pt, &reg.ct, &cx.sk, sx.roomy()) {
-                return fail(step, op, "decrypt-error", format!("register {ri}: ckks_decrypt failed: {e}"));
+                return fail(step, op, "decrypt-error", format!("register {ri}: ckks_decrypt into a plaintext of (log_delta {pld}, log_budget {dlb}) from a ciphertext of (log_delta {}, log_budget {}) failed: {e}", sh.ld, sh.lb));
+            }
+            if pld != sh.ld {
+                classes.push("decrypt_at_another_scale");
             }
             let mut rnx = CKKSPlaintextVecRnx::<f64>::alloc(n).unwrap();
             // a decrypted value far outside the expected magnitude overflows the i64 decoder
@@ -906,7 +926,7 @@ fn run_program_inner(c: &Case, sx: &mut Sx, dump: &mut Vec<Option<(usize, usize,
             }
             let (mut re, mut im) = (vec![0.0; m], vec![0.0; m]);
             cx.encoder.decode_reim(&rnx, &mut re, &mut im).unwrap();
-            let tol = 2.0 * sh.err + nf * p2(-(sh.ld as i64)) * 4.0 + sh.mag() * 1e-12;
+            let tol = 2.0 * sh.err + nf * p2(-(sh.ld.min(pld) as i64)) * 4.0 + sh.mag() * 1e-12;
             let rel = tol / sh.mag().max(1e-3);
             if rel <= p2(-10) {
                 informative += 1;
